@@ -1,4 +1,4 @@
-import Gp.Lemmas.ReasmRep
+import Gp.Lemmas.ReasmCover
 /-
   C09 — reassembly: TCP bytes delivered in order, exactly once, gaps announced.
 
@@ -120,25 +120,9 @@ theorem reasm_skip_minus1_only_first (S : List UInt8) (i : Int) (hi : 0 ≤ i) (
 
 /-! ### completeness -/
 
-/-- Full statement (not proved): once the SYN and every byte of `S` have been accepted, and nothing was flushed
-    or released by a limit, the new bytes handed over, concatenated, are exactly `S`.
-    Missing: a coverage invariant through `checkOverlap` ("every accepted byte is either already passed on or
-    inside a queued page"), i.e. that the six overlap cases never drop a byte that is not re-supplied by the
-    packet being inserted.  `reasm_sound` already excludes wrong or duplicated bytes; what is not proved is
-    that nothing stays queued for ever. -/
-def reasm_complete_full : Prop :=
-  ∀ (S : List UInt8) (i : Int), 0 ≤ i → S.length + 2 < 1073741824 →
-  ∀ (segs : List (Seg × KeepRule × Cfg × Int)),
-    (∀ x ∈ segs, SegOK S i x.1 ∧ x.2.2.1.maxPer ≤ 0 ∧ x.2.2.1.maxTotal ≤ 0) →
-    (∃ x ∈ segs, x.1.syn = true) →
-    (∀ o : Nat, o < S.length → ∃ x ∈ segs, ∃ k : Nat, x.1.dataSeq + k = i + 1 + o ∧ k < x.1.bytes.length) →
-    ∀ h sgs, hrun Arith.real {} ((segs.map (fun x => HOp.seg x.1 1 x.2.1 x.2.2.1 x.2.2.2)).map HOp.wrap) = .ok (h, sgs) →
-      newBytes sgs = S
-
-/-- Proved part: whatever is handed over without an announced gap is a PREFIX of `S` — for histories of
-    accepted consistent segments without limits (no flush, no limit ⇒ every skip is 0 by
-    `reasm_gap_only_on_flush`), provided the SYN was processed before anything was released. -/
-theorem reasm_complete_partial (S : List UInt8) (i : Int) (hi : 0 ≤ i) (hwin : S.length + 2 < 1073741824)
+/-- Whatever is handed over without an announced gap is a PREFIX of `S` — for every consistent history (any
+    flushes, limits, rejections) in which no ScatterGather carried a skip. -/
+theorem reasm_complete_prefix (S : List UInt8) (i : Int) (hi : 0 ≤ i) (hwin : S.length + 2 < 1073741824)
     (ops : List HOp) (hok : ∀ op ∈ ops, op.OK S i) (h : Half) (sgs : List SG)
     (hrun' : hrun Arith.real {} (ops.map HOp.wrap) = .ok (h, sgs)) (hnoskip : ∀ g ∈ sgs, g.skip = 0) :
     newBytes sgs = S.take (newBytes sgs).length := by
@@ -149,6 +133,99 @@ theorem reasm_complete_partial (S : List UInt8) (i : Int) (hi : 0 ≤ i) (hwin :
       (by rw [hnoskip g (List.mem_cons_self ..)]; decide)
     have := hrp.noskip hnoskip
     simpa [slice] using this
+
+
+/-- **Completeness.**  Fix `S`, `i` as in `reasm_sound`.  For EVERY history of accepted (`Accept` = true) consistent
+    segments — any segmentation, arrival order, duplication, overlapping retransmission, SYN first / late /
+    retransmitted / carrying data, FIN anywhere (it is at the end of the sender's stream), any KeepFrom answers —
+    with no page limit configured and no flush in between (`HOp.Plain`): once a SYN and every byte of `S` have
+    been fed, the new bytes handed to the stream, concatenated in hand-over order, are exactly `S`, and no gap was
+    announced.  Nothing stays queued for ever and nothing is dropped by the six overlap cases of `checkOverlap`.
+    (An RST is admitted only at the end of the stream and not on a SYN: an RST in the middle legitimately ends
+    the direction before `S` is complete — see the example below.) -/
+theorem reasm_complete (S : List UInt8) (i : Int) (hi : 0 ≤ i) (hwin : S.length + 2 < 1073741824)
+    (ops : List HOp) (hplain : ∀ op ∈ ops, op.Plain S i) (hsyn : ∃ op ∈ ops, op.isSyn = true)
+    (hall : ∀ o : Nat, o < S.length → ∃ op ∈ ops, op.carries (i + 1 + o))
+    (h : Half) (sgs : List SG) (hrun' : hrun Arith.real {} (ops.map HOp.wrap) = .ok (h, sgs)) :
+    newBytes sgs = S ∧ ∀ g ∈ sgs, g.skip = 0 := by
+  have hok : ∀ op ∈ ops, op.OK S i := fun op hop => (hplain op hop).ok
+  have hA := hrun_wrap S i hi hwin ops {} (Or.inr (inv_init S (i + 1) 0)) hok
+  obtain ⟨⟨hI, sgsI⟩, hr, _, _⟩ := hrun_spec S i hi ops {} (Or.inr (inv_init S (i + 1) 0)) hok
+  rw [half_wrap_init, hr, hrun'] at hA
+  obtain ⟨_, rfl⟩ := Prod.mk.inj (Res.ok.inj hA)
+  obtain ⟨hlen, hskip⟩ := complete_ideal S i hi ops hplain hsyn hall hI _ hr
+  refine ⟨?_, hskip⟩
+  have hpre := reasm_complete_prefix S i hi hwin ops hok h _ hrun' hskip
+  rw [hlen] at hpre
+  rw [hpre, List.take_length]
+
+/-- What is still missing for the strongest reading of "nothing is passed over silently": the same conservation
+    law for histories WITH page limits and interleaved flushes — every accepted byte is, at any time, in front of
+    nextSeq (handed over, or announced as part of a skip: `reasm_sound`) or still queued; stated in offset space.
+    Not proved: the coverage invariant (`Gp.Reasm.CInv.cov`, proved through checkOverlap, handleBytes and
+    sendToConnection for limit-free Assemble steps) has not been carried through the page-limit release of
+    handleBytes and through skipFlush / flushClose. -/
+def reasm_no_loss_full : Prop :=
+  ∀ (S : List UInt8) (i : Int), 0 ≤ i →
+  ∀ (ops : List HOp), (∀ op ∈ ops, op.OK S i) →
+    (∀ op ∈ ops, ∀ p acc keep cfg used, op = HOp.seg p acc keep cfg used → acc = 1 ∧
+      (p.rst = true → p.syn = false ∧ p.dataSeq + p.bytes.length = i + 1 + S.length)) →
+  ∀ (h : Half) (sgs : List SG), hrun Arith.ideal {} ops = .ok (h, sgs) → h.closed = false →
+  ∀ x : Int, i + 1 ≤ x → (∃ op ∈ ops, op.carries x) →
+    (h.nextSeq ≠ -1 ∧ x < h.nextSeq) ∨ ∃ p ∈ h.queue, p.seq ≤ x ∧ x < p.seq + p.bytes.length
+
+/-- non-vacuity of `reasm_complete`: the stream of the examples below (crossing the 2^32 wrap), fed as
+    [4,6) — SYN — [0,3) — [1,4) overlapping — [6,8)+FIN — [3,6) overlapping both neighbours: all hypotheses hold
+    and the stream gets 1..8. -/
+def cpS : List UInt8 := [1, 2, 3, 4, 5, 6, 7, 8]
+def cpI : Int := 4294967292
+def cpSeg (off n : Nat) (syn fin : Bool) (keep : KeepRule) : HOp :=
+  .seg { seq := if syn then cpI else cpI + 1 + off, syn := syn, fin := fin, rst := false,
+         bytes := (cpS.drop off).take n, ts := 1 } 1 keep {} 0
+def cpOps : List HOp :=
+  [cpSeg 4 2 false false .none, cpSeg 0 0 true false .none, cpSeg 0 3 false false (.fromEnd 1),
+   cpSeg 1 3 false false (.abs 0), cpSeg 6 2 false true .none, cpSeg 3 3 false false .none]
+
+example : ∀ op ∈ cpOps, op.Plain cpS cpI := by
+  intro op hop
+  simp only [cpOps, List.mem_cons, List.mem_nil_iff, or_false] at hop
+  rcases hop with rfl | rfl | rfl | rfl | rfl | rfl <;>
+    (refine ⟨⟨by decide, ?_, by decide⟩, rfl, by decide, by decide, by decide⟩
+     first
+     | exact ⟨4, by decide, by decide, by decide⟩
+     | exact ⟨0, by decide, by decide, by decide⟩
+     | exact ⟨1, by decide, by decide, by decide⟩
+     | exact ⟨6, by decide, by decide, by decide⟩
+     | exact ⟨3, by decide, by decide, by decide⟩)
+
+example : (∃ op ∈ cpOps, op.isSyn = true) ∧ (∀ o : Nat, o < cpS.length → ∃ op ∈ cpOps, op.carries (cpI + 1 + o)) := by
+  refine ⟨⟨cpSeg 0 0 true false .none, by simp [cpOps], rfl⟩, ?_⟩
+  intro o ho
+  have ho' : o < 8 := ho
+  have h1 : ∀ o : Nat, o < 3 → (cpSeg 0 3 false false (.fromEnd 1)).carries (cpI + 1 + o) := by
+    intro o ho; simp only [HOp.carries, cpSeg, Seg.dataSeq, cpS, cpI]; simp; omega
+  have h2 : ∀ o : Nat, 3 ≤ o → o < 6 → (cpSeg 3 3 false false .none).carries (cpI + 1 + o) := by
+    intro o h1 h2; simp only [HOp.carries, cpSeg, Seg.dataSeq, cpS, cpI]; simp; omega
+  have h3 : ∀ o : Nat, 6 ≤ o → o < 8 → (cpSeg 6 2 false true .none).carries (cpI + 1 + o) := by
+    intro o h1 h2; simp only [HOp.carries, cpSeg, Seg.dataSeq, cpS, cpI]; simp; omega
+  by_cases a : o < 3
+  · exact ⟨_, by simp [cpOps], h1 o a⟩
+  · by_cases b : o < 6
+    · exact ⟨_, by simp [cpOps], h2 o (by omega) b⟩
+    · exact ⟨_, by simp [cpOps], h3 o (by omega) ho'⟩
+
+example : (match hrun Arith.real {} (cpOps.map HOp.wrap) with
+    | .ok (_, sgs) => (newBytes sgs, sgs.map (fun (g : SG) => g.skip))
+    | _ => ([], [])) = ([1, 2, 3, 4, 5, 6, 7, 8], [0, 0, 0, 0]) := by decide
+
+/-- why an RST in the middle is excluded: SYN, RST, then the only byte of the stream — the RST closes the
+    direction and the byte is (correctly) never handed over. -/
+example : (match hrun Arith.real {} [
+      .seg { seq := 0, syn := true, fin := false, rst := false, bytes := [], ts := 1 } 1 .none {} 0,
+      .seg { seq := 1, syn := false, fin := false, rst := true, bytes := [], ts := 1 } 1 .none {} 0,
+      .seg { seq := 1, syn := false, fin := false, rst := false, bytes := [9], ts := 1 } 1 .none {} 0] with
+    | .ok (h, sgs) => (h.closed, newBytes sgs)
+    | _ => (false, [0])) = (true, []) := by decide
 
 /-! ### non-vacuity: a history that crosses the 2^32 wrap, out of order, with an overlapping retransmission,
     KeepFrom and a flush satisfies the hypotheses and produces data -/
